@@ -97,6 +97,7 @@ impl Prop for C11 {
             max_input_bits: 6,
             anon_inputs: which == 2 || t.chance(40),
             divrem: true,
+            many_outputs: true,
             ..SysCfg::default()
         };
         let mut case = gen_system(&mut t, &cfg);
